@@ -409,4 +409,4 @@ def run_tier(tier, t0):
 
 
 if __name__ == "__main__":
-    engine.main(PROP, run_tier, replay_case)
+    engine.main(PROP, run_tier, replay_case, eval_block)
